@@ -1,6 +1,7 @@
 import Gallia.Lib.Proto
 import Gallia.Model.ClientConc
 import Gallia.Model.ClientMulti
+import Gallia.Model.TransportReconnect
 import Gallia.Spec.Reply
 open Gallia Gallia.Proto Gallia.ClientConc Gallia.Client Gallia.ClientIO Gallia.ClientMulti
 
@@ -27,6 +28,9 @@ open Gallia Gallia.Proto Gallia.ClientConc Gallia.Client Gallia.ClientIO Gallia.
         -> `ok holder=<h> waiters=<..> inbox=<n> | <tid>=<phase>:<aborted>:<round>:<reads> ...`
          | `disabled <index> <choice>` | `label <index> <choice> model=<label>`
     foreign <request hex> <reply hex>   -> genuine | foreign | undecodable | other   (`Spec/Reply.lean` on the request bytes)
+    trc <timeout ms|none> <connect ms> <default o|C|T|O> <outcomes o|C|T|O ...|->   `BaseTransport.reconnect(timeout)` against a target whose k-th
+                                        connection attempt ends as scripted (`Model/TransportReconnect.lean`)
+        -> `<connected|C|T|O|deadline> <completed attempts> <elapsed ms>`
 -/
 
 def parseEv (s : String) : Option Event :=
@@ -197,6 +201,22 @@ def classOf (q b : Bytes) : String :=
   if Reply.genuineB r b then "genuine" else if Reply.foreignB r b then "foreign"
   else if Reply.undecodableB r b then "undecodable" else "other"
 
+def connResOf : Char → Option TransportReconnect.ConnRes
+  | 'o' => some .ok | 'C' => some .refused | 'T' => some .timedOut | 'O' => some .osError | _ => none
+
+def showRcOut : TransportReconnect.RcOut → String
+  | .connected => "connected" | .deadline => "deadline"
+  | .error .refused => "C" | .error .timedOut => "T" | .error .osError => "O" | .error .ok => "?"
+
+def trcLine (tmo c dflt outs : String) : String :=
+  let t : Option (Option Nat) := if tmo == "none" then some none else tmo.toNat?.map some
+  let os := if outs == "-" then some [] else outs.toList.mapM connResOf
+  match t, c.toNat?, dflt.toList.head?.bind connResOf, os with
+  | some t, some c, some d, some os =>
+    let r := TransportReconnect.reconnect (fun k => os.getD k d) c t
+    s!"{showRcOut r.out} {r.attempts} {r.elapsed}"
+  | _, _, _, _ => "bad-op"
+
 def stepD (d : DState) (line : String) : DState × String :=
   match words line with
   | "accept" :: evs => (d, acceptLine evs)
@@ -215,6 +235,7 @@ def stepD (d : DState) (line : String) : DState × String :=
     let P := d.P
     let tids := (d.progs.map (·.1)).reverse
     (d, runSched P tids (MSys.init P (fun t => d.born.contains t)) cs 0)
+  | ["trc", tmo, c, dflt, outs] => (d, trcLine tmo c dflt outs)
   | ["foreign", q, b] =>
     match unhexStr q, unhexStr b with
     | some q, some b => (d, classOf q b)
